@@ -30,7 +30,6 @@ import (
 	"sort"
 	"strconv"
 	"strings"
-	"time"
 
 	dhcp "github.com/irai/packet/handlers/dhcp4_spoofer"
 	"verif/harness/c11"
@@ -374,4 +373,3 @@ func genRsim(c *core.Ctx) {
 	}
 }
 
-var _ = time.Now
